@@ -937,7 +937,7 @@ class MakeKey(Kernel):
     name = "graph_wiring.cpp:make_key"
     fn_name = "make_key"
     filter = "make_key"
-    property_ids = ("C06",)
+    property_ids = ("C06", "C03")
     scope = {"lo": 0, "hi": 3}
     title = "make_key: the interning key carries, per input, its source, target position, rank flag and passive marker"
 
@@ -1018,7 +1018,7 @@ class MakeKey(Kernel):
         yield "index-range", z3.And(i >= 0, i <= self.n)
         if kv is None:
             raise Gap("make_key: no key under construction at the loop")
-        yield "inputs-keyed-so-far[C06]", z3.And(ctx.store[(kv.oid, "len")] == i, self.keyed(ctx, i))
+        yield "inputs-keyed-so-far[C06; C03]", z3.And(ctx.store[(kv.oid, "len")] == i, self.keyed(ctx, i))
 
     def keyed(self, ctx, upto):
         kv = self.keyvec
